@@ -38,6 +38,24 @@ def execute (requested : Nat) : List Attempt → Option Res
     | .err true => some (.err true)
     | .err false => execute requested rest
 
+/-- `Dialer.Execute` with a backoff that GIVES UP (`backoff.Exponential.max_elapsed_time` set:
+`bo := d.backoff.NextBackOff(); … if bo == -1 { return nil, errors.New("dial backoff max duration exceeded") }`).
+`budget` = the number of failed attempts after which `NextBackOff` still returns a delay; the
+failed attempt that finds the budget exhausted ends the dialer with a (non-fatal) error. The
+link dialer routine (`executeLinkDialer`) then returns that error; `keyed` (constructed without a
+retry backoff) does not run it again while the references on the key stay as they are — only a
+NEW reference (`AddKeyRef` → `SetKey(key, true)`) starts a fresh execution with a fresh budget. -/
+def executeBudget (requested : Nat) : List Attempt → Nat → Option Res
+  | [], _ => none
+  | a :: rest, b =>
+    match dialPeer requested a with
+    | .link p => some (.link p)
+    | .err true => some (.err true)
+    | .err false =>
+      match b with
+      | 0 => some (.err false)
+      | b + 1 => executeBudget requested rest b
+
 /-- number of attempts consumed before `execute` returned (or all of them). -/
 def consumed (requested : Nat) : List Attempt → Nat
   | [] => 0
